@@ -139,7 +139,9 @@ def tail_lemma(pe, a, b, i, n):
 
 
 def same_values(pe, a, b):
-	return same_bytes(pe, a, b)
+	"""same length and the same backing values (cells outside [0, len) are ghost, see nonneg)"""
+	a, b = _arr(a), _arr(b)
+	return SBool(z3.And(a.length == b.length, a.off == b.off, a.arr == b.arr))
 
 
 for _n in ('inter', 'sorted_unique', 'nonneg', 'jdist', 'D', 'one_minus', 'tail_lemma', 'same_values'):
@@ -446,3 +448,42 @@ def rc_equiv_lemma(pe, ks, hay, prc):
 
 NS['hay_equiv_lemma'] = hay_equiv_lemma
 NS['rc_equiv_lemma'] = rc_equiv_lemma
+
+
+# ---- ghost state of the futures model (C13) ---------------------------------------------------------------------
+
+def next_future_is(pe, n):
+	"""n futures have been created by this call"""
+	nf = pe.st.ghosts['next_future']
+	return SBool(int_term(nf) == int_term(pe.st.ghosts['_const_fut_base']) + int_term(n))
+
+
+def fut(pe, j):
+	"""the future created by the j-th submit of this call"""
+	return SInt(int_term(pe.st.ghosts['_const_fut_base']) + int_term(j))
+
+
+def fut_file_is(pe, f, file):
+	fa = pe.st.ghosts.get('fut_file')
+	if fa is None:
+		return False
+	return SBool(z3.Select(fa, int_term(f)) == file.term)
+
+
+def fut_kspec_is(pe, f, ks):
+	fa = pe.st.ghosts.get('fut_kspec')
+	if fa is None:
+		return False
+	return SBool(z3.Select(fa, int_term(f)) == ks.term)
+
+
+def has_key(pe, d, k):
+	if isinstance(d, dict):
+		if not d:
+			return False
+		raise Unsupported('has_key on a non-empty concrete dict')
+	return SBool(d.has(k))
+
+
+for _n in ('fut', 'next_future_is', 'fut_file_is', 'fut_kspec_is', 'has_key'):
+	NS[_n] = globals()[_n]
